@@ -960,10 +960,10 @@ class LogixDriver(CIPDriver):
                 self.__log.exception("Invalid tag request")
                 results.append(Tag(tag, None, None, f"Invalid tag request - {err!r}"))
 
-        if len(tags) > 1:
-            return results
-        else:
+        if len(tags) == 1:
             return results[0]
+        else:
+            return results
 
     def _read_build_requests(self, parsed_tags):
         if len(parsed_tags) != 1 and not self._micro800:
@@ -1113,10 +1113,10 @@ class LogixDriver(CIPDriver):
                 self.__log.exception("Invalid tag request")
                 results.append(Tag(tag, None, None, f"Invalid tag request - {err!r}"))
 
-        if len(tags_values) > 1:
-            return results
-        else:
+        if len(tags_values) == 1:
             return results[0]
+        else:
+            return results
 
     def _write_build_requests(self, parsed_tags):
         if len(parsed_tags) != 1 and not self._micro800:
